@@ -393,6 +393,42 @@ def validate(recs, name):
     return res
 
 
+def domain_edges(run):
+    """One past each end of what a primitive's wire format can hold (TTLV.tla: Integer / Enumeration / Interval 32 bits,
+    Long Integer / Date-Time 64 bits): the library must REFUSE such a value when it is constructed - a value it lets the caller
+    construct must be encodable.  (The schema generators stay inside the domains, so this edge is probed directly.)"""
+    from kmip.core import primitives as P, utils as kutils
+    from kmip.core import enums as kenums
+    cells = [("Integer", lambda v: P.Integer(v), [2 ** 31, -2 ** 31 - 1, 2 ** 32]),
+             ("LongInteger", lambda v: P.LongInteger(v), [2 ** 63, -2 ** 63 - 1]),
+             ("Interval", lambda v: P.Interval(v), [2 ** 32, 2 ** 32 + 1, -1]),
+             ("DateTime", lambda v: P.DateTime(v), [2 ** 63, -2 ** 63 - 1])]
+    n = 0
+    for name, mk, vals in cells:
+        for v in vals:
+            n += 1
+            try:
+                obj = mk(v)
+            except Exception:
+                run.case(("edge", name, v > 0, "refused"))
+                continue
+            try:
+                st = kutils.BytearrayStream()
+                obj.write(st)
+                back = type(obj)()
+                back.read(kutils.BytearrayStream(st.buffer))
+                ok = back.value == v
+                why = "decodes to %r" % (back.value,)
+            except Exception as e:
+                ok, why = False, "%s: %s" % (type(e).__name__, str(e)[:80])
+            run.case(("edge", name, v > 0, "constructed"))
+            if not ok:
+                run.violation("C01_encodable", {"cls": name, "what": "a value one past the wire format's range is constructible but not encodable"},
+                              {"class": name, "value": str(v), "outcome": why})
+    run.traces += n
+    run.extra["domain_edge_values"] = n
+
+
 def check(run, tier):
     quick = tier == "quick"
     run.rule = ("KmipSchema.tla (+SchemaBase/Objects/Payloads/Messages) states, per class and KMIP version, the fields, kinds, "
@@ -421,6 +457,8 @@ def check(run, tier):
         for i, v in enumerate(vs):
             full = (not quick) or v in (vs[0], vs[-1]) or (len(vs) > 2 and v == vs[len(vs) // 2])
             tasks.append((c, v, common.SEED, (6 if quick else 40) if full else 3, full, (2 if quick else 8), deadline))
+    if not ONLY:
+        domain_edges(run)
     rows = tlc_rows(run, classes, quick)
     with multiprocessing.Pool(common.NCPU) as pool:
         outs = pool.map(_work, tasks, chunksize=1)
